@@ -29,7 +29,9 @@ type apiRoot struct {
 	Type    *types.Named
 }
 
-func (r apiRoot) Name() string { return typegraph.PkgShort(r.Type.Obj().Pkg()) + "." + r.Type.Obj().Name() }
+func (r apiRoot) Name() string {
+	return typegraph.PkgShort(r.Type.Obj().Pkg()) + "." + r.Type.Obj().Name()
+}
 func (r apiRoot) IsRequest() bool {
 	return r.Role == "request" || r.Role == "stream-request"
 }
@@ -235,12 +237,16 @@ func isNamespaceNameField(owner *types.Named, f *types.Var) (is bool, kind strin
 	return false, ""
 }
 
-func isNamespaceInfo(t types.Type) bool { return typegraph.TypeIs(t, "api/namespace/v1", "NamespaceInfo") }
-func isHistory(t types.Type) bool       { return typegraph.TypeIs(t, "api/history/v1", "History") }
-func isHistoryEvent(t types.Type) bool  { return typegraph.TypeIs(t, "api/history/v1", "HistoryEvent") }
-func isDataBlob(t types.Type) bool      { return typegraph.TypeIs(t, "api/common/v1", "DataBlob") }
-func isSearchAttrs(t types.Type) bool   { return typegraph.TypeIs(t, "api/common/v1", "SearchAttributes") }
-func isPayload(t types.Type) bool       { return typegraph.TypeIs(t, "api/common/v1", "Payload") }
+func isNamespaceInfo(t types.Type) bool {
+	return typegraph.TypeIs(t, "api/namespace/v1", "NamespaceInfo")
+}
+func isHistory(t types.Type) bool      { return typegraph.TypeIs(t, "api/history/v1", "History") }
+func isHistoryEvent(t types.Type) bool { return typegraph.TypeIs(t, "api/history/v1", "HistoryEvent") }
+func isDataBlob(t types.Type) bool     { return typegraph.TypeIs(t, "api/common/v1", "DataBlob") }
+func isSearchAttrs(t types.Type) bool {
+	return typegraph.TypeIs(t, "api/common/v1", "SearchAttributes")
+}
+func isPayload(t types.Type) bool { return typegraph.TypeIs(t, "api/common/v1", "Payload") }
 
 // dataBlobForm classifies a field type as *DataBlob, []*DataBlob or other DataBlob-containing form.
 func dataBlobForm(t types.Type) string {
